@@ -144,6 +144,57 @@ func checkC17(rep *core.Report) {
 		}
 	}
 	fname := core.FuncName(F)
+	// no other source: between the defaults and flag.Parse nothing but the environment loader, the file loader and
+	// the flag package writes the options (a step that "fills in" or "normalises" values after the file was read
+	// overrides what the file or the environment said)
+	{
+		isEv := map[ssa.Instruction]bool{}
+		for _, e := range envEv {
+			isEv[e] = true
+		}
+		for _, e := range fileEv {
+			isEv[e] = true
+		}
+		writes := func(fn *ssa.Function) string {
+			w := ""
+			allInstrs(fn, func(ins ssa.Instruction) {
+				switch x := ins.(type) {
+				case *ssa.Store:
+					if o, f, ok := core.FieldOf(x.Addr); ok && typeIs(o, core.ModPath+"/vflow", "Options") {
+						if _, fresh := core.AddrRoot(x.Addr).(*ssa.Alloc); !fresh {
+							w = "store to Options." + f.Name() + " at " + prog.Pos(x.Pos())
+						}
+					}
+				case ssa.CallInstruction:
+					if n := calleeName(x); strings.HasPrefix(n, "(reflect.Value).Set") {
+						w = n + " at " + prog.Pos(x.Pos())
+					}
+				}
+			})
+			return w
+		}
+		other := ""
+		if w := writes(F); w != "" {
+			other = w
+		}
+		for _, cs := range cg.Sites[F] {
+			if isEv[cs.Instr] {
+				continue
+			}
+			for _, t := range cs.Targets {
+				if !prog.IsRepoFunc(t) {
+					continue
+				}
+				for _, r := range cg.ReachableRepo(t) {
+					if w := writes(r); w != "" {
+						other = core.FuncName(r) + ": " + w
+					}
+				}
+			}
+		}
+		r1.Check(other == "", fname+":no-other-source", F.Pos(), "only the environment loader, the file loader and the flag package write the options before flag.Parse",
+			"something besides the environment loader, the file loader and the flags writes the options on the way to flag.Parse ("+other+"): a value given by the environment or the file can be replaced by one that comes from neither")
+	}
 	if len(envEv) == 0 || len(fileEv) == 0 {
 		r1.Undecided(fname+":events", F.Pos(), fmt.Sprintf("%d environment and %d file events in the function that parses flags; want at least one of each there", len(envEv), len(fileEv)))
 		return
